@@ -39,6 +39,7 @@ var Dict = func() [][]byte {
 		[]byte("https://%41.com/"), []byte("https:///path"), []byte("https:"), []byte("HTTPS://EXAMPLE.COM"), []byte("http://example.com./"), []byte("https://xn--/"), []byte("https://*.example.com/"),
 		[]byte("https://abcdefghijklmnop.onion"), []byte("http://abcdefghijklmnop.onion:80/"), []byte("ldaps://[fe80::1%25eth0]/"), []byte("file:///etc/passwd"), []byte("data:,x"), []byte("?"), []byte("#"),
 		[]byte("a@xn--.com"), []byte("a@[127.0.0.1]"), []byte("\"a b\"@example.com"), []byte("a@b@c.com"), []byte("a@.com"), []byte("@example.com"), []byte(".example.com@"),
+		[]byte("100%25 real.example.com"), []byte("%s%d%v%!"), []byte("a%b.example.com"),
 		[]byte("Private Organization"), []byte("Government Entity"), []byte("private organization"), []byte("V1.0, Clause 5.(b)"), []byte("V1.0, Clause 5.(x)"),
 		bytes.Repeat([]byte("a"), 65), bytes.Repeat([]byte("a"), 129), bytes.Repeat([]byte("b"), 300), bytes.Repeat([]byte{0xC3, 0xA9}, 40), bytes.Repeat([]byte("x"), 32769),
 	}
